@@ -277,6 +277,44 @@ def codec_parse(fmt, text, ff=False):
     return Codec(fmt, ff).parse(text)
 
 
+def same_obs(a, b):
+    if a[0] != b[0]:
+        return False
+    if a[0] == 'ok':
+        return pv.pv_equal(a[1], b[1])
+    return a[1] == b[1]
+
+
+def in_child(fn, case):
+    """Run fn(case) in a forked child and return its JSON result: whatever a case with a
+    history leaves behind in module-level state cannot reach later cases of this worker."""
+    r, w = os.pipe()
+    pid = os.fork()
+    if pid == 0:
+        code = 0
+        try:
+            os.close(r)
+            try:
+                data = json.dumps(['ok', fn(case)])
+            except BaseException as e:           # noqa
+                import traceback
+                data = json.dumps(['exc', f'{type(e).__name__}: {e}', traceback.format_exc()[-1200:]])
+            with os.fdopen(w, 'w') as f:
+                f.write(data)
+        except BaseException:                    # noqa
+            code = 1
+        finally:
+            os._exit(code)
+    os.close(w)
+    with os.fdopen(r) as f:
+        data = f.read()
+    os.waitpid(pid, 0)
+    res = json.loads(data)
+    if res[0] != 'ok':
+        raise RuntimeError(f'case child failed: {res[1]}\n{res[2]}')
+    return res[1]
+
+
 def attempt(fn, *a, **kw):
     import contextlib
     from pypyr.errors import get_error_name
@@ -507,9 +545,37 @@ def run_wf(case):
         # 2. fetch (same context object, as in a pipeline)
         if obs['write'] is None or obs['write'][0] == 'ok':
             before = canon(dict(ctx), sb.unsub)
-            fr = attempt(importlib.import_module(F['fm']).run_step, ctx)
+            fetch_mod = importlib.import_module(F['fm'])
+            # "fetching is a function of the file": the same fetch on an identical context,
+            # once BEFORE anything else was loaded in this process ...
+            c0 = build_context(case, sb, extra)
+            f0 = attempt(fetch_mod.run_step, c0)
+            first = ['ok', canon(dict(c0), sb.unsub)] if f0[0] == 'ok' else f0[:2]
+            # ... then the history: earlier, unrelated documents go through the same step and
+            # the same context parser (kept out of the case's directory)
+            if case.get('pre'):
+                from pypyr.context import Context
+                pre_dir = tempfile.mkdtemp(prefix='c16-pre-')
+                try:
+                    for i, text in enumerate(case['pre']):
+                        pp = os.path.join(pre_dir, f'legacy{i}.{F["ext"]}')
+                        with open(pp, 'w', encoding='utf-8') as f:
+                            f.write(text)
+                        attempt(fetch_mod.run_step, Context({F['f']: {'path': pp, 'key': 'legacy'}}))
+                        attempt(importlib.import_module(F['pm']).get_parsed_context, [pp])
+                finally:
+                    shutil.rmtree(pre_dir, ignore_errors=True)
+            fr = attempt(fetch_mod.run_step, ctx)
             obs['fetch'] = ['ok', canon(dict(ctx), sb.unsub)] if fr[0] == 'ok' else fr
             obs['ctx_before_fetch'] = before
+            # ... and once more afterwards
+            c2 = build_context(case, sb, extra)
+            f2 = attempt(fetch_mod.run_step, c2)
+            again = ['ok', canon(dict(c2), sb.unsub)] if f2[0] == 'ok' else f2[:2]
+            this = obs['fetch'] if obs['fetch'][0] == 'ok' else obs['fetch'][:2]
+            obs['fetch_stable'] = {'first': same_obs(first, this), 'again': same_obs(again, this)}
+            if not obs['fetch_stable']['first']:
+                obs['fetch_first'] = first
             if fr[0] != 'ok':
                 obs['ctx_after_failed_fetch'] = canon(dict(ctx), sb.unsub)
         else:
